@@ -34,6 +34,9 @@ inductive Item where
   | tbl (name : JStr) (cnt : Prim) (el : Elem)
   /-- table whose number of elements is given by an earlier item -/
   | impl (name : JStr) (el : Elem)
+  /-- table whose entries take up one or two *slots* each (§4.4.5) and which is filled until as many slots are taken as
+  an earlier item says (§4.1: `cp_info constant_pool[constant_pool_count-1]`) -/
+  | slots (name : JStr) (el : Elem)
   /-- one nested structure -/
   | one (name : JStr) (ty : JStr)
   deriving DecidableEq, Repr
@@ -48,7 +51,7 @@ def tabS (n : String) (cnt : Prim) (ty : String) : Item := .tbl (jstr n) cnt (.s
 /-- structures (§4.1, §4.5, §4.6 and the table entries of §4.7), by the crate's type name -/
 def structs : List (JStr × List Item) := [
   (jstr "ClassFile", [u4 "magic", u2 "minor_version", u2 "major_version", u2 "constant_pool_count",
-    .impl (jstr "constant_pool") (.s (jstr "CpInfo")), u2 "access_flags", u2 "this_class", u2 "super_class",
+    .slots (jstr "constant_pool") (.s (jstr "CpInfo")), u2 "access_flags", u2 "this_class", u2 "super_class",
     tab "interfaces" .u16 .u16, tabS "fields" .u16 "FieldInfo", tabS "methods" .u16 "MethodInfo",
     tabS "attributes" .u16 "AttributeInfo"]),
   (jstr "FieldInfo", [u2 "access_flags", u2 "name_index", u2 "descriptor_index", tabS "attributes" .u16 "AttributeInfo"]),
@@ -192,6 +195,7 @@ def fieldItems (names : List JStr) : List Field → List Item
      | .field (.prim p) _ => [Item.p (nameOf names f.name) p]
      | .field (.vecCnt c el) _ => [Item.tbl (nameOf names f.name) c (elemOf names el)]
      | .field (.vecLen _ el) _ => [Item.impl (nameOf names f.name) (elemOf names el)]
+     | .field (.vecSlots _ _ el) _ => [Item.slots (nameOf names f.name) (elemOf names el)]
      | .field (.ref id) _ => [Item.one (nameOf names f.name) (nameOf names id)]
      | .nowrite _ _ => []) ++ constItems names f.post ++ fieldItems names fds
 
@@ -228,6 +232,34 @@ def defConformsX (names : List JStr) (skip : List JStr) : Def → Bool
 
 /-- full conformance of one definition with the JVMS tables -/
 def defConforms (names : List JStr) : Def → Bool := defConformsX names []
+
+/-- the tag a pool entry value is written with (variants of the pool entry type have literal tags) -/
+def entryTag (variants : List Variant) : Val → Option Nat
+  | .node k _ =>
+    (match variants[k]? with
+     | some v => (match v.tagWrite.e with | .lit t => some t | _ => none)
+     | none => none)
+  | _ => none
+
+/-- §4.4.5 for one entry value -/
+def jvmsSlots (variants : List Variant) (e : Val) : Nat :=
+  match entryTag variants e with | some t => slots t | none => 1
+
+/-- §4.1: "The value of the constant_pool_count item is equal to the number of entries in the constant_pool table plus
+one", where long and double entries count twice (§4.4.5) -/
+def jvmsPoolCount (variants : List Variant) (es : List Val) : Nat :=
+  1 + (es.map (jvmsSlots variants)).sum
+
+/-- §4.4.5 against the slot table of the implementation (`CpInfo::slots`, translated into `Env.wide`): the table names
+variants of the pool entry type only, and a variant is in it iff the JVMS gives the tag it is written with two slots -/
+def slotsConform (variants : List Variant) (wide : List Nat) : Bool :=
+  wide.all (· < variants.length) &&
+  (List.range variants.length).all fun k =>
+    match variants[k]? with
+    | some v => (match v.tagWrite.e with
+                 | .lit t => wide.contains k == (slots t == 2)
+                 | _ => false)
+    | none => true
 
 /-- every predefined attribute of the table is modelled by some variant -/
 def attrsCovered (variants : List Variant) : Bool :=
@@ -308,9 +340,8 @@ def moduleBody : P :=
   seq (skip 6) (seq (tbl2 (skip 6)) (seq (tbl2 (seq (skip 4) (tbl2 (skip 2)))) (seq (tbl2 (seq (skip 4) (tbl2 (skip 2))))
     (seq (tbl2 (skip 2)) (tbl2 (seq (skip 2) (tbl2 (skip 2))))))))
 
-/-- one attribute; `known` is only passed on (`known = true` makes `pool` refuse long/double entries, the region of the
-open defect of raw_class_file) -/
-def attrInfo (known : Bool) (pool : Utf8s) : Nat → P
+/-- one attribute -/
+def attrInfo (pool : Utf8s) : Nat → P
   | 0, _ => none
   | f + 1, bs =>
     (n2 bs).bind fun (ni, r1) =>
@@ -321,7 +352,7 @@ def attrInfo (known : Bool) (pool : Utf8s) : Nat → P
       match utf8At pool ni with
       | none => none
       | some name =>
-        let attributes : P := tbl2 (attrInfo known pool f)
+        let attributes : P := tbl2 (attrInfo pool f)
         let p : Option P :=
           if name = jstr "ConstantValue" then some (skip 2)
           else if name = jstr "Code" then
@@ -356,8 +387,9 @@ def attrInfo (known : Bool) (pool : Utf8s) : Nat → P
         | none => some rest
         | some p => if p body = some [] then some rest else none
 
-/-- constant pool: `i` = index of the next entry, `count` = constant_pool_count; collects the Utf8 entries -/
-def pool (known : Bool) (count : Nat) : Nat → Nat → Utf8s → Bytes → Option (Utf8s × Bytes)
+/-- constant pool: `i` = index of the next entry, `count` = constant_pool_count; collects the Utf8 entries.  A long or
+double entry takes the indices `i` and `i + 1` (§4.4.5); an entry that ends past `count - 1` is malformed. -/
+def pool (count : Nat) : Nat → Nat → Utf8s → Bytes → Option (Utf8s × Bytes)
   | 0, _, _, _ => none
   | fuel + 1, i, acc, bs =>
     if i = count then some (acc, bs)
@@ -367,16 +399,16 @@ def pool (known : Bool) (count : Nat) : Nat → Nat → Utf8s → Bytes → Opti
         if t = 1 then
           (n2 r).bind fun (n, r2) =>
             match splitN n r2 with
-            | some (s, r3) => pool known count fuel (i + 1) ((i, s) :: acc) r3
+            | some (s, r3) => pool count fuel (i + 1) ((i, s) :: acc) r3
             | none => none
-        else if t = 3 ∨ t = 4 ∨ t = 9 ∨ t = 10 ∨ t = 11 ∨ t = 12 ∨ t = 17 ∨ t = 18 then (skip 4 r).bind (pool known count fuel (i + 1) acc)
-        else if t = 5 ∨ t = 6 then (if known then none else (skip 8 r).bind (pool known count fuel (i + 2) acc))
-        else if t = 7 ∨ t = 8 ∨ t = 16 ∨ t = 19 ∨ t = 20 then (skip 2 r).bind (pool known count fuel (i + 1) acc)
-        else if t = 15 then (skip 3 r).bind (pool known count fuel (i + 1) acc)
+        else if t = 3 ∨ t = 4 ∨ t = 9 ∨ t = 10 ∨ t = 11 ∨ t = 12 ∨ t = 17 ∨ t = 18 then (skip 4 r).bind (pool count fuel (i + 1) acc)
+        else if t = 5 ∨ t = 6 then (skip 8 r).bind (pool count fuel (i + 2) acc)
+        else if t = 7 ∨ t = 8 ∨ t = 16 ∨ t = 19 ∨ t = 20 then (skip 2 r).bind (pool count fuel (i + 1) acc)
+        else if t = 15 then (skip 3 r).bind (pool count fuel (i + 1) acc)
         else none
 
 /-- §4.1: the whole input is one well-framed class file -/
-def classFile (known : Bool) (bs : Bytes) : Bool :=
+def classFile (bs : Bytes) : Bool :=
   match n4 bs with
   | some (magic, r0) =>
     if magic ≠ 3405691582 then false else
@@ -387,11 +419,11 @@ def classFile (known : Bool) (bs : Bytes) : Bool :=
       | none => false
       | some (count, r2) =>
         if count = 0 then false else
-        match pool known count (count + 1) 1 [] r2 with
+        match pool count (count + 1) 1 [] r2 with
         | none => false
         | some (utf8s, r3) =>
           let fuel := bs.length + 1
-          let attributes : P := tbl2 (attrInfo known utf8s fuel)
+          let attributes : P := tbl2 (attrInfo utf8s fuel)
           let member : P := seq (skip 6) attributes
           (seq (skip 6) (seq (tbl2 (skip 2)) (seq (tbl2 member) (seq (tbl2 member) attributes))) r3) == some []
   | none => false
